@@ -23,7 +23,7 @@ ASSUMPTIONS = ["oracle: vf/oracle/mesh.py + classical.py, independent of permuta
 REQUIRED = [
     "calls.MeshPatt.occurrences_in", "calls.BivincularPatt.occurrences_in", "calls.Perm.contains", "calls.Perm.avoids",
     "calls.Perm.avoids_set", "calls.Perm.__contains__", "calls.BivincularPatt.__init__", "biv.adjacency_checked",
-    "mixed.checked", "nontrivial.accept_and_reject", "boundary_cell_decisive", "roundtrip.requirements",
+    "mixed.checked", "nontrivial.accept_and_reject", "boundary_cell_decisive", "roundtrip.requirements", "derived.objects",
 ]
 MIN_NONTRIVIAL = 500
 CTX = None
@@ -233,7 +233,27 @@ def chk_mixed(ctx, t, patts):
         q in T
 
 
-CHECKS = {"pair": chk_pair, "biv": chk_biv, "mixed": chk_mixed}
+def chk_derived(ctx, m, t):
+    """patterns obtained through the API (symmetries, shade, sub-patterns, point insertion) are searched for after
+    their parent has been searched for; each search is judged by the monitors on the derived object's own value"""
+    Mp, T = dec(m), Perm(t)
+    _pair(Mp, T, full=False)
+    k = len(Mp)
+    cells = [(x, y) for x in range(k + 1) for y in range(k + 1)]
+    derived = [Mp.rotate(ctx.rng.randint(1, 3)), Mp.inverse(), Mp.complement().reverse(), Mp.shade(ctx.rng.choice(cells))]
+    if k:
+        derived.append(Mp.sub_mesh_pattern(sorted(ctx.rng.sample(range(k), ctx.rng.randint(0, k)))))
+    free = [c for c in cells if c not in Mp.shading]
+    if free and k <= 3:
+        derived.append(Mp.add_point(ctx.rng.choice(free)))
+    for D in derived:
+        ctx.count("derived.objects")
+        for TT in (T, T.rotate(), T.inverse()):
+            _pair(D, TT, full=False)
+    _pair(Mp, T, full=True)
+
+
+CHECKS = {"pair": chk_pair, "biv": chk_biv, "mixed": chk_mixed, "derived": chk_derived}
 
 
 # ---- workload -----------------------------------------------------------------------------------
@@ -314,6 +334,8 @@ def run(ctx, spec):
                     t[i] = vals[p[j]]
             Mp = MeshPatt(Perm(p), S)
             _pair(Mp, Perm(t), full=rng.random() < 0.3)
+            if rng.random() < 0.2:
+                chk_derived(ctx, enc(Mp), t)
             if rng.random() < 0.3:
                 others = []
                 for _ in range(rng.randint(1, 3)):
